@@ -23,6 +23,7 @@ FINDINGS = {
     "F3": "yielding post statement placed inside the loop body block: a body-local declaration captures the post's variable",
     "F4": "range over an array iterates over the array itself instead of a copy (and does not build for unaddressable arrays)",
     "F9": "for v := range g { v := ... } redeclares v in the generated loop body (does not build)",
+    "F24": "x, n := ... after a yield in the block that declared x declares a new x inside the generated function literal instead of assigning: closures created before it no longer see the update",
     "F18": "hoisting 'for i := ...' initialisers out of the loop shares one variable between iterations under go >= 1.22 semantics",
 }
 
